@@ -70,9 +70,9 @@ class WCCN(TransformerMixin, BaseEstimator):
         # 2. Compute Sw
         Sw = numerical_module.zeros((X.shape[1], X.shape[1]), dtype=float)
 
-        for label in possible_labels:
+        for i, label in enumerate(possible_labels):
             indexes = numerical_module.where(y_ == label)[0]
-            X_l_mu_l = X[indexes] - mu_l[label]
+            X_l_mu_l = X[indexes] - mu_l[i]
 
             Sw += X_l_mu_l.T @ X_l_mu_l
 
